@@ -85,6 +85,14 @@ if __name__ == "__main__":
         case("visited-not-top2", nss2, T2, "doc:5#top@1", g=12,
              comment="banned user must be denied through doc:5#top@doc:1#ok2 (was ALLOWED: a marks group:10#member visited, banned is skipped, ! flips)")
         case("visited-not-direct2", nss2, T2, "doc:1#ok2@1", g=12)
+        # traverse over several parents, membership through a subject-set indirection on one of them:
+        # the decision must not depend on goroutine scheduling (independent mutant C01-m3: shared loop variable)
+        nss3 = [ns("Folder", rel("viewers", [("group", "member")]), perm("view", "or", c("viewers"))),
+                ns("Doc", rel("parents", [("Folder", "")]), perm("view", "or", ttu("parents", "view"))), group]
+        for k in range(1, 4):
+            T3 = [f"Doc:1#parents@Folder:{j}#" for j in range(1, 6)] + [f"Folder:{k}#viewers@group:10#member"] + base
+            case(f"ttu-parents-{k}", nss3, T3, "Doc:1#view@1", g=10,
+                 comment="traverse over five parents, one of them grants through group:10#member -> group:11#member" if k == 1 else None)
         # F-alias (fixed by 561187c): ("a-b", o, "c") vs ("a", o, "b-c")
         nss = [ns("n", rel("r", [("a-b", "c"), ("a", "b-c")])), ns("a-b", rel("c", [("a-b", "m")]), rel("m")),
                ns("a", rel("b-c", [("a", "m")]), rel("m"))]
